@@ -96,6 +96,22 @@ def run(repo, rep):
     sh_, st_, nw_ = writer_reuse_problems(repo)
     rep.check(not (sh_ or st_), 'C08.M7', 'dsutils:writers', repo.module('dsutils').relpath, '%d write sites: buffers fresh, or per-thread and '
               'emptied first' % nw_, '; '.join(sh_ + st_))
+    # ---------------------------------------------------------------- M8: one message, one moment
+    rep.rule('C08.M8', 'encode() describes one state of the message: it is a generator (command set, Command Data Set Type and data set are '
+             'all read while the PDUs are pulled) or it reads them all at the call; a plain function that encodes the command set at the '
+             'call and returns a generator reading self again later can pair the flag of one state with the data set of another', 1)
+    from ..pitfalls import phase_split_problems
+    from ..srcmodel import Repo as _Repo
+    raw_ = _Repo(normalize=False)
+    p8_, n8_ = [], 0
+    base_ = raw_.cls('dimsemessages', 'DIMSEMessage')
+    for c_ in [base_] + [k_ for k_ in raw_.module('dimsemessages').classes.values() if k_.is_subclass_of(base_) and k_.key != base_.key]:
+        if 'encode' in c_.methods:
+            pr_, nl_ = phase_split_problems(raw_, c_.methods['encode'])
+            p8_ += pr_
+            n8_ += nl_
+    rep.check(not p8_, 'C08.M8', 'dimsemessages:DIMSEMessage.encode:one-moment', base_.loc(),
+              'encode() reads the message in one phase (%d lazy part(s) returned by a plain function)' % n8_, '; '.join(p8_))
     # ---------------------------------------------------------------- M0
     ds = repo.module('dsutils')
     for fname, inner in (('encode', None), ('encode_element', None), ('decode', 'read_dataset')):
